@@ -10,8 +10,8 @@ import (
 	"sync"
 	"time"
 
-	fs "github.com/go-text/typesetting/fontscan"
 	ot "github.com/go-text/typesetting/font/opentype"
+	fs "github.com/go-text/typesetting/fontscan"
 
 	"verifharness/internal/corpus"
 	"verifharness/internal/gen"
@@ -98,7 +98,7 @@ func expectedFootprints(c Content) []MFootprint {
 }
 
 var (
-	poolOnce sync.Once
+	poolOnce   sync.Once
 	pool       []string // corpus ids of small files
 	poolMulti  []string // small collections
 	poolMedium []string // files up to 512 KiB (larger rune sets)
@@ -148,9 +148,13 @@ func tickTime(tick int64) time.Time {
 type Op struct {
 	Kind    string  `json:"kind"`
 	Path    string  `json:"path,omitempty"`
-	To      string  `json:"to,omitempty"`     // rename destination / symlink target (as stored in the link)
+	To      string  `json:"to,omitempty"` // rename destination / symlink target (as stored in the link)
 	Content Content `json:"content,omitempty"`
 	Tick    int64   `json:"tick,omitempty"`
+	// DirTick: logical time given to the directories the operation modifies
+	// (their modification time shows up in the index through directory
+	// symlinks; without it the index bytes would depend on the wall clock).
+	DirTick int64 `json:"dir_tick,omitempty"`
 }
 
 func (o Op) String() string {
@@ -165,8 +169,32 @@ func (o Op) String() string {
 	return o.Kind + " " + o.Path
 }
 
-// apply performs the operation below base.
+// apply performs the operation below base and stamps the directories it
+// modified with the operation's logical directory time.
 func (o Op) apply(base string) error {
+	if err := o.apply1(base); err != nil {
+		return err
+	}
+	if o.DirTick != 0 {
+		t := tickTime(o.DirTick)
+		stamp := func(p string) {
+			if st, err := os.Lstat(p); err == nil && st.IsDir() {
+				os.Chtimes(p, t, t)
+			}
+		}
+		stamp(filepath.Dir(filepath.Join(base, o.Path)))
+		if o.Kind == "rename" {
+			stamp(filepath.Dir(filepath.Join(base, o.To)))
+			stamp(filepath.Join(base, o.To))
+		}
+		if o.Kind == "mkdir" {
+			stamp(filepath.Join(base, o.Path))
+		}
+	}
+	return nil
+}
+
+func (o Op) apply1(base string) error {
 	p := filepath.Join(base, o.Path)
 	switch o.Kind {
 	case "write":
@@ -321,6 +349,12 @@ func (t *treeModel) subtreeDepth(p string) int {
 // genOp draws the next operation of a history from the current model. It
 // always returns an applicable operation.
 func (t *treeModel) genOp(r *gen.RNG, roots []string) Op {
+	op := t.genOp1(r, roots)
+	op.DirTick = t.next()
+	return op
+}
+
+func (t *treeModel) genOp1(r *gen.RNG, roots []string) Op {
 	for tries := 0; ; tries++ {
 		dirs := t.sorted("d")
 		files := t.sorted("f")
